@@ -129,9 +129,10 @@ func parseAddressList(addresses string) string {
 		email := addr
 
 		// Extract name part if present
-		if strings.Contains(addr, "<") && strings.Contains(addr, ">") {
-			start := strings.Index(addr, "<")
-			end := strings.Index(addr, ">")
+		// The angle brackets that delimit the address are outside quoted strings: "a <b>" <c@d> is c@d
+		start := indexUnquoted(addr, '<')
+		end := indexUnquoted(addr, '>')
+		if start >= 0 && end >= 0 {
 			// Only a "<" that precedes the ">" delimits an address ("a > b <c" must not be sliced backwards)
 			if start < end {
 				name = strings.TrimSpace(addr[:start])
@@ -165,6 +166,23 @@ func parseAddressList(addresses string) string {
 	}
 
 	return "(" + strings.Join(addrStructs, " ") + ")"
+}
+
+// indexUnquoted returns the index of the first c in s that is not inside a quoted string (where a backslash quotes
+// the next octet), or -1
+func indexUnquoted(s string, c byte) int {
+	inQuotes := false
+	for i := 0; i < len(s); i++ {
+		switch {
+		case s[i] == '\\' && inQuotes:
+			i++ // the next octet is quoted
+		case s[i] == '"':
+			inQuotes = !inQuotes
+		case s[i] == c && !inQuotes:
+			return i
+		}
+	}
+	return -1
 }
 
 // splitAddressList splits an address header at the commas that separate addresses: a comma inside a quoted display
